@@ -72,6 +72,13 @@ func par(seed int64, n int, f func(i int, r *rand.Rand)) {
 		wg.Add(1)
 		go func(i int) {
 			defer wg.Done()
+			defer func() {
+				// a crash inside the library (e.g. a nil dereference in a racy window) must not end
+				// the shard: the race report has been written already, the other programs still run
+				if r := recover(); r != nil {
+					fmt.Printf("RACEPROG-PANIC %v\n", r)
+				}
+			}()
 			f(i, rand.New(rand.NewSource(seed*131+int64(i))))
 		}(i)
 	}
@@ -446,7 +453,14 @@ func racePrograms() []raceProg {
 					case 0, 1:
 						sr.SetState(r.Intn(4))
 					case 2:
-						sr.SwapValue(func(v int) int { return v + 1 })
+						switch r.Intn(3) {
+						case 0:
+							sr.SwapValue(func(v int) int { return v + 1 })
+						case 1:
+							sr.SwapValue(func(v int) int { return v })
+						default:
+							sr.SwapValue(nil)
+						}
 					case 3:
 						_ = sr.GetState()
 					case 4:
